@@ -594,6 +594,7 @@ fn grid_case(idx: u64, limit: u32) -> (Vec<u8>, Vec<usize>, [u8; 7]) {
 }
 
 pub const GRID: u64 = 256 * 5 * 6 * 9 * 2 * 3 * 4;
+pub const GRID2: u64 = 256 * 3 * 22 * 25;
 
 fn extreme_case(rng: &mut SmallRng) -> Vec<u8> {
     let ext = |rng: &mut SmallRng| -> u64 { [0, 1, u64::MAX, u64::MAX - 1, 1 << 63, (1 << 63) - 1, rng.gen()][rng.gen_range(0..7)] };
@@ -602,7 +603,12 @@ fn extreme_case(rng: &mut SmallRng) -> Vec<u8> {
     let key = KEYS[rng.gen_range(0..KEYS.len())];
     // make the key hold a counter near the edge first, sometimes
     let seedv: &[u8] = [&b"18446744073709551615"[..], b"18446744073709551614", b"0", b"1", b"9223372036854775807", b"x"][rng.gen_range(0..6)];
-    wire::store(op::SET, key, seedv, e32(rng), 0, 1, 0).encode_into(&mut s);
+    // (not always: what earlier cases left under this key - possibly expired since, the worker's clock
+    // moves between cases - is a state of its own)
+    if rng.gen_bool(0.75) {
+        let ttl = if rng.gen_bool(0.3) { e32(rng) } else { 0 };
+        wire::store(op::SET, key, seedv, e32(rng), ttl, 1, 0).encode_into(&mut s);
+    }
     for i in 0..rng.gen_range(1..6) {
         let f = match rng.gen_range(0..6) {
             0 => wire::counter([op::INCR, op::DECR, op::INCRQ, op::DECRQ][rng.gen_range(0..4)], key, ext(rng), ext(rng), e32(rng), i, ext(rng) * (rng.gen_range(0..3) / 2)),
@@ -677,7 +683,8 @@ pub fn run_c10(ctx: &Ctx) -> i32 {
     let current: Mutex<Vec<Option<String>>> = Mutex::new(vec![None; ctx.workers]);
     let shared = Mutex::new(ev0);
     let grid_total = if miri { 20_000u64.min(GRID) } else { GRID };
-    let total = grid_total + n_other;
+    let grid2_total = if miri { 4_000u64 } else { GRID2 };
+    let total = grid_total + grid2_total + n_other;
     let done = AtomicU64::new(0);
     std::thread::scope(|s| {
         for w in 0..ctx.workers {
@@ -704,6 +711,32 @@ pub fn run_c10(ctx: &Ctx) -> i32 {
                             let _ = per_op;
                             let (b, cu, cl) = grid_case(gi, limit);
                             (b, cu, cl.to_vec())
+                        } else if idx < grid_total + grid2_total {
+                            // second grid: every opcode x key length x extras length 0..21 x body = key + 0..24, so
+                            // that the body length walks across each opcode's own fixed-size extras
+                            let gi = if miri { ((idx - grid_total) * 83) % GRID2 } else { idx - grid_total };
+                            let opcode = (gi % 256) as u8;
+                            let mut x = gi / 256;
+                            let key_len = [1u32, 3, 250][(x % 3) as usize];
+                            x /= 3;
+                            let extras = (x % 22) as u32;
+                            x /= 22;
+                            let body = key_len + (x % 25) as u32;
+                            let mut h = Vec::with_capacity(64 + body as usize);
+                            h.push(0x80);
+                            h.push(opcode);
+                            h.extend_from_slice(&(key_len as u16).to_be_bytes());
+                            h.push(extras as u8);
+                            h.push(0);
+                            h.extend_from_slice(&[0, 0]);
+                            h.extend_from_slice(&body.to_be_bytes());
+                            h.extend_from_slice(&0xabcd_0124u32.to_be_bytes());
+                            h.extend_from_slice(&0u64.to_be_bytes());
+                            for i in 0..body {
+                                h.push(if i < extras { 0 } else if i < extras + key_len { b'k' } else { b'1' });
+                            }
+                            h.extend_from_slice(&wire::simple(op::NOOP, 0x77).encode());
+                            (h, vec![24], vec![opcode, 100 + (key_len % 7) as u8, extras as u8, (body - key_len) as u8, 0, 0, 9])
                         } else {
                             let mut rng = SmallRng::seed_from_u64(ctx.case_seed("hostile", idx));
                             let k = idx % 4;
@@ -730,12 +763,21 @@ pub fn run_c10(ctx: &Ctx) -> i32 {
                             let mut cur = current.lock().unwrap();
                             cur[w] = Some(wire::hex(&bytes[..bytes.len().min(64)]));
                         }
+                        // time passes between cases on the worker's store: items left behind with a TTL expire
+                        // without having been touched
+                        if idx >= grid_total && rngw.gen_ratio(1, 5) {
+                            stack.timer.advance([1u64, 1, 2, 5, 40, 2_592_001][rngw.gen_range(0..6)]);
+                            *local.entry("clock_advances_between_cases".into()).or_insert(0) += 1;
+                        }
                         let r = hostile_case(&stack, &bytes, &cuts, limit);
                         progress.fetch_add(1, Ordering::Relaxed);
                         evals += 1;
                         if idx < grid_total {
                             fps.push(fnv(&class));
                             *local.entry(format!("grid:magic{}:dt{}", class[5], class[4])).or_insert(0) += 1;
+                        } else if idx < grid_total + grid2_total {
+                            fps.push(fnv(&class));
+                            *local.entry("grid2:opcode x key{1,3,250} x extras 0..21 x body key+0..24".into()).or_insert(0) += 1;
                         } else {
                             fps.push(fnv(&bytes));
                             *local.entry(format!("kind:{}", ["extreme-values", "random-bytes", "sparse-header", "mutated-stream"][(idx % 4) as usize])).or_insert(0) += 1;
@@ -792,6 +834,7 @@ pub fn run_c10(ctx: &Ctx) -> i32 {
     let mut ev = shared.into_inner().unwrap();
     ev.exhaustive = false;
     ev.extra.insert("grid_size".into(), json!(GRID));
+    ev.extra.insert("grid2_size".into(), json!(GRID2));
     ev.extra.insert("grid_sampling".into(), json!(format!("1 of every {}", sample_every)));
     ev.finish()
 }
